@@ -18,8 +18,10 @@ Proof. reflexivity. Qed.
 (* the fragment: test identifiers, an engine that neither reacts from inside notifications nor
    completes services immediately nor mutates parameter lists; ANY script of API calls (start,
    completion, junk events, registration of further functions, attaching / detaching observers);
-   programs whose unfolding consists of services, task calls (non-empty bodies) and Parallel
-   statements, arbitrarily nested, within the generator's recursion budget *)
+   programs whose unfolding consists of services, task calls (non-empty bodies), Parallel
+   statements, Conditions (non-empty Passed block, with or without a Failed block) and While
+   loops (non-empty bodies), arbitrarily nested, within the generator's recursion budget.
+   Not in the fragment: counting loops, parallel loops *)
 Definition in_fragment (c : runcase) : bool :=
   rc_test_ids c
   && forallb (fun o => match o with None => true | Some _ => false end) (rc_react c)
